@@ -1,12 +1,35 @@
 (* C09 — Splitting yields exactly the connected components.  Only property
-   theorems: each is closed by `exact` and followed by Print Assumptions. *)
-From Coq Require Import List NArith.
-From DSD Require Import Base.Str Base.Errors Model.ComplexUtils Proofs.Split.
+   theorems: each is closed by `exact` and followed by Print Assumptions.
+
+   tab_of d is the pair table of the well-formed structure render d (C06/C08);
+   ends d lists the loop directly containing each strand break followed by loop 0
+   (the outer ends); NoDup (ends d) is make_loop_index's connectivity criterion. *)
+From Coq Require Import List NArith Permutation Sorted.
+From DSD Require Import Base.Str Base.Errors Model.ComplexUtils Dyck.Dyck
+  Proofs.Db Proofs.Loops Proofs.Split.
 Import ListNotations.
 
-Theorem C09_splice_shares_out_strands : forall (stab : list (list pstr)) ptab i j,
-  i <= j -> j < length stab ->
-  let '((iss, _), (oss, _)) := splice stab ptab i j in
-  length iss = S j - i /\ length oss = length stab - (S j - i).
-Proof. exact (@splice_lengths pstr). Qed.
-Print Assumptions C09_splice_shares_out_strands.
+(* a connected complex is returned unchanged *)
+Theorem C09_split_connected_id : forall (stab : list (list pstr)) d fuel,
+  NoDup (ends d) -> split_complex_pt (S fuel) stab (tab_of d) = Ok [(stab, tab_of d)].
+Proof. exact (@split_connected_id pstr). Qed.
+Print Assumptions C09_split_connected_id.
+
+(* the recursion never runs out of fuel with fuel = S (number of strands), on any table *)
+Theorem C09_split_no_fuel : forall fuel (stab : list (list pstr)) ptab k,
+  length ptab < fuel -> split_complex_pt fuel stab ptab = Err k -> k <> eFuel.
+Proof. exact (@split_no_fuel pstr). Qed.
+Print Assumptions C09_split_no_fuel.
+
+(* the parts' strands are a partition of the input strands, each part in
+   increasing original order, content unchanged (for every table on which the
+   function returns) *)
+Theorem C09_split_partition : forall (stab : list (list pstr)) ptab fuel parts,
+  length stab = length ptab ->
+  split_complex_pt fuel stab ptab = Ok parts ->
+  exists idxs,
+    map fst parts = map (sel stab) idxs /\
+    Permutation (concat idxs) (seq 0 (length stab)) /\
+    Forall (StronglySorted lt) idxs.
+Proof. exact (@split_partition pstr). Qed.
+Print Assumptions C09_split_partition.
